@@ -654,7 +654,6 @@ func (r *Runner) Run() (err error) {
 			}
 			reloadManager.clearPendingRetirement()
 			reloadManager.setPendingReloadMetadata(reloadStartedAt, reloadStartedAtMono)
-			reloadManager.beginHandoff()
 
 			// Ready to close.
 			if oldC != nil && reloadManager.currentPendingStagedHandoff() == nil {
@@ -665,6 +664,11 @@ func (r *Runner) Run() (err error) {
 				}
 				reloadManager.startControlPlaneRetirement(log, oldC, newC, oldCancel, abortConnections, hasOverlap)
 			}
+
+			// Hand off only after the old generation's retirement has been published: the main
+			// loop's finishReloadSuccess must find it, or it would release the request (and accept
+			// the next one) while the old generation has not even begun to retire.
+			reloadManager.beginHandoff()
 
 			reloadManager.refreshPprofServer(log, &pprofServer, newConf.Global.PprofPort)
 
